@@ -71,6 +71,12 @@ def gen_cases(tier, seed):
             continue
         if rng.random() < 0.5:
             case["pack"]["factory"] = rng.choice((0, 1, 2, 3, 4))
+        drng = intuniv.rng_for(seed, "C04w/dep", i)
+        if drng.random() < 0.08:
+            # verification rules that have a child (a declared dependency): what the databases record
+            # for them is judged here, whether or not a specification can use them
+            case["pack"]["ver"] = drng.choice(("dep1", "dep2"))
+            case["db"] = drng.choice(("forest", "forest", "base", "forget"))
         case["schedule"] = {"mode": rng.choice(("drain", "drain", "sliced", "levels")),
                             "costs": [rng.choice((0.001, 3.5))], "rng_seed": rng.randrange(10 ** 6),
                             "tree_k": 0, "perc": 1, "smallest": False}
@@ -110,9 +116,14 @@ def run_words(case):
     pack = gen.build_pack(case["pack"])
     m_spec.set_context(packs=[pack], enabled=False)
     m_faithful.CONFIG["truth_empty"] = _truth_empty
-    res = searchlib.run_search(case)
+    if str(case["pack"]["ver"]).startswith("dep"):
+        # no specification is asked for: the searcher records verification rules with a child but
+        # cannot build specifications from them (it leaves the child without a rule and asserts);
+        # what is judged here is every insertion
+        s = gen.build_searcher(case)
+    else:
+        s = searchlib.run_search(case).searcher
     # keep expanding to the end of the (finite) universe so that every rule is seen
-    s = res.searcher
     for _ in range(3000):
         try:
             wp = next(s.classqueue)
